@@ -67,7 +67,7 @@ P['C02'] = dict(
     level_text='Same exploration as C01 with the no-loss monitor: no accepted, un-cancelled publish completes with a transport error or try_again at any point, and from every explored state a fault-free suffix (broker reachable, answers everything) completes every request. Retransmission with the same packet identifier is checked by C03\'s monitor.',
     level_note='Bounded liveness only: the suffix is at most 10 rounds; "eventually" beyond it is not claimed. Faults explored: connection reset at quiescent points (with a write in progress failing, or succeeding locally while its bytes are lost), lost acknowledgements, one malformed/unsolicited packet, the broker obtaining a write before the client sees it complete; one or two requests, with and without Receive Maximum 1; the connection dies by reset, by orderly close (eof / broken pipe) or by abort. Refused connections and silent brokers are covered in C10/C12.',
     assumptions=_pub_assume,
-    jobs=[dict(name='no_silent_loss', tu='harness/w_pub.cpp', entry='h_pub', engine='B', clock=True, defs={'VK_MODE': 2, 'VK_DROP': 3, 'VK_ACK_VARIANTS': 3}, defs_quick={'VK_STEPS': 5, 'VK_REQS': 1}, defs_thorough={'VK_STEPS': 6, 'VK_REQS': 2}, reach=['reconnected', 'all-requests-completed'], samples=10),
+    jobs=[dict(name='no_silent_loss', tu='harness/w_pub.cpp', entry='h_pub', engine='B', clock=True, defs={'VK_MODE': 2, 'VK_DROP': 9, 'VK_ACK_VARIANTS': 3}, defs_quick={'VK_STEPS': 5, 'VK_REQS': 1}, defs_thorough={'VK_STEPS': 6, 'VK_REQS': 2}, reach=['reconnected', 'all-requests-completed'], samples=10),
           dict(name='no_silent_loss_two_requests', tu='harness/w_pub.cpp', entry='h_pub', engine='B', clock=True, defs={'VK_MODE': 2, 'VK_REQS': 2, 'VK_ACK_VARIANTS': 2, 'VK_DROP': 1}, defs_quick={'VK_STEPS': 5}, defs_thorough={'VK_STEPS': 6}, reach=['reconnected', 'all-requests-completed', 'write-lost-in-flight'], samples=10),
           dict(name='no_silent_loss_throttled', tu='harness/w_pub.cpp', entry='h_pub', engine='B', clock=True, defs={'VK_MODE': 2, 'VK_REQS': 2, 'VK_ACK_VARIANTS': 2, 'VK_RM': 1, 'VK_DROP': 2}, defs_quick={'VK_STEPS': 5}, defs_thorough={'VK_STEPS': 6}, reach=['reconnected', 'all-requests-completed'], samples=10)])
 P['C03'] = dict(
@@ -85,7 +85,7 @@ P['C14'] = dict(
     jobs=[_sub_job('subscribe_verdicts', 0, 14, 5, 7, ['request-on-wire', 'acked', 'bad-ack', 'reconnected', 'success-checked']),
           _sub_job('unsubscribe_verdicts', 1, 14, 5, 7, ['request-on-wire', 'acked', 'bad-ack', 'success-checked'])])
 P['C02']['jobs'] += [_sub_job('subscribe_no_loss', 0, 2, 4, 6, ['request-completed']), _sub_job('unsubscribe_no_loss', 1, 2, 4, 6, ['request-completed'])]
-for _j in P['C02']['jobs'][-2:]: _j['defs'] = dict(_j['defs'], VK_DROP=3)
+for _j in P['C02']['jobs'][-2:]: _j['defs'] = dict(_j['defs'], VK_DROP=9)
 
 P['C04'] = dict(
     level_text='The real mqtt_client receives PUBLISH packets (QoS 0/1/2, symbolic topic/payload bytes and Message Expiry) from a protocol-conformant broker model; every order of new messages, PUBREL, completion of the client\'s acknowledgement writes, connection loss and reconnect with Session Present 0/1 (followed by the broker\'s DUP retransmissions and PUBREL retransmissions) is explored, then a fault-free suffix. Monitors: acknowledgement type and id per QoS, PUBCOMP only after PUBREL, every PUBREL answered, delivered topic/payload/properties equal the sent ones, QoS 2 at most once and exactly once when the exchange completes, QoS 1 at least once, order per QoS level.',
@@ -99,7 +99,9 @@ P['C05'] = dict(
     level_note='Bounds: 3 operations, 5 (quick) / 6 (thorough) steps. "Runs out of work" is observed on the stub world: empty handler queue, no pending socket/resolver operation, no armed timer.',
     assumptions=_pub_assume[:2],
     jobs=[dict(name='completion_once_and_drain', tu='harness/w_cancel.cpp', entry='h_cancel', engine='B', clock=True, defs={'VK_OPS': 3}, defs_quick={'VK_STEPS': 5}, defs_thorough={'VK_STEPS': 6},
-               reach=['answered', 'cancel', 'disconnect', 'destroyed', 'terminal-signal', 'drained', 'restarted', 'invalid-request', 'completion-left-queued'], samples=10)])
+               reach=['answered', 'cancel', 'disconnect', 'destroyed', 'terminal-signal', 'drained', 'restarted', 'invalid-request', 'completion-left-queued'], samples=10),
+          dict(name='stop_during_handshake', tu='harness/w_cancel.cpp', entry='h_cancel_handshake', engine='B', clock=True, defs={'VK_OPS': 3},
+               reach=['cancel', 'disconnect', 'destroyed', 'drained', 'struck-mid-handshake', 'struck-after-connack'], samples=10)])
 
 P['C06'] = dict(
     level_text='Whole client: up to 3 publishes of any QoS with or without a (symbolic, 1..3) Receive Maximum, serial counter started next to 2^32 so that it wraps inside the bound; every order of publish / write completion / acknowledgement / connection loss + reconnect. Monitor on the wire: per connection, QoS>0 PUBLISH packets (all PUBLISH packets when no Receive Maximum applies) appear in initiation order, retransmissions included. Kernel (both engines): write_req::operator< on symbolic (flags, serial) triples is irreflexive, asymmetric, orders any two requests within a 2^31 window by initiation across the 2^32 wrap, puts prioritised first and is transitive inside a window.',
